@@ -28,6 +28,7 @@ open Pg.Typing
 /-- Error classes of a mutator (`index`: IndexError, not a schema rejection). -/
 inductive E where
   | type | value | key | index
+  | perm          -- WritePermissionError (a sealed container: the content of a frozen field)
   deriving DecidableEq, Repr
 
 def ofErr : Err → E
@@ -442,6 +443,9 @@ def boundSpec (env : Env) (s : Spec) (v : Val) : Spec :=
   | .union cands _ => (unionPick env v cands).getD s
   | s => s
 
+/-- The field / element spec of a stored container, or the Union candidate it is bound to, is frozen. -/
+def frozenAt (env : Env) (s : Spec) (v : Val) : Bool := s.flags.frozen || (boundSpec env s v).flags.frozen
+
 /-- Write `a` at `path` below the container value `v` whose field / element spec is `s`. -/
 def nestedSet (env : Env) (pb : Val → Bool) : Spec → Val → List PKey → Bool → Val → Except E Val
   | _, _, [], _, _ => .error .key
@@ -465,6 +469,8 @@ def nestedSet (env : Env) (pb : Val → Bool) : Spec → Val → List PKey → B
   | s, v, hd :: rest, ins, a =>
     match boundSpec env s v, v, hd with
     | .dict (some fields) _, .dict kvs, .key k =>
+      if frozenAt env s v then .error .key        -- members of a frozen Dict value are plain: "not a symbolic type"
+      else
       match lookup kvs k, getField env fields k with
       | some c, some f =>
         match nestedSet env pb f.value c rest ins a with
@@ -501,9 +507,70 @@ def nestedSet (env : Env) (pb : Val → Bool) : Spec → Val → List PKey → B
       | none => .error .key
     | _, _, _ => .error .key
 
+/-- `k in t` for strings. -/
+def isInfix (k : List Char) : List Char → Bool
+  | [] => k.isEmpty
+  | c :: cs => k.isPrefixOf (c :: cs) || isInfix k cs
+
+def isContainer : Val → Bool
+  | .dict _ | .list _ => true
+  | _ => false
+
+/-- What resolving the parent node of `path` reports before anything is written (base.py 1213-1223 and
+`_ensure_rebind_targets_writable`): `some .perm` — the node that holds the last key exists and is
+sealed; `some .type` — the path runs through a string that contains the next key as a substring
+(`'xb'['x']`, TypeError);
+`none` — nothing to report (also for a path that does not exist: KeyError comes later).
+The symbolic container created for a FROZEN field / element spec (or for the frozen Union candidate
+the value is bound to) is sealed, recursively (`symbolic_transform_fn`, with the F185 repair).  The
+members of a frozen *Dict* value are passed through as plain Python values (`pass_through=True`), so
+below them there is no symbolic node any more. -/
+def preCheck (env : Env) : Bool → Spec → Val → List PKey → Option E
+  | _, _, _, [] => none
+  | sl, s, v, [_] => if (sl || frozenAt env s v) && isContainer v then some .perm else none
+  | sl, s, v, hd :: rest =>
+    let sl' := sl || frozenAt env s v
+    match boundSpec env s v, v, hd with
+    | .dict (some fields) _, .dict kvs, .key k =>
+      if frozenAt env s v then none
+      else match lookup kvs k, getField env fields k with
+        | some c, some f => preCheck env sl' f.value c rest
+        | _, _ => none
+    | .list elem _ _ _, .list items, .idx i =>
+      match items[i]? with
+      | some c => preCheck env sl' elem c rest
+      | none => none
+    | .any f, .dict kvs, .key k =>
+      match lookup kvs k with
+      | some c => preCheck env sl' (.any f) c rest
+      | none => none
+    | .dict none _, .dict kvs, .key k =>
+      if frozenAt env s v then none
+      else match lookup kvs k with
+        | some c => preCheck env sl' (.any ⟨true, .missing, false⟩) c rest
+        | none => none
+    | .any f, .list items, .idx i =>
+      match items[i]? with
+      | some c => preCheck env sl' (.any f) c rest
+      | none => none
+    | _, .str t, .key k =>
+      -- `KeyPath.query` tests `key in value` first: for a string that is the substring test, and
+      -- only then indexes it (`'xb'['x']`: TypeError); otherwise the path "does not exist"
+      if isInfix k.toList t.toList then some .type else none
+    | _, _, _ => none
+
+/-- The pre-check of one rebind entry. -/
+def entryPre (env : Env) (d : TDict) (k : String) (rest : List PKey) : Option E :=
+  match rest with
+  | [] => none
+  | rest =>
+    match lookup d.kvs k, getField env d.fields k with
+    | some c, some f => preCheck env false f.value c rest
+    | _, _ => none
+
 /-- One entry of a rebind: a direct key goes to the write primitive, a longer path to the typed
-descendant it reaches; the ancestors are not re-validated. -/
-def pathWrite (env : Env) (pb : Val → Bool) (d : TDict) (k : String) (rest : List PKey) (ins : Bool)
+descendant it reaches (refused if that node is sealed); the ancestors are not re-validated. -/
+def pathWrite0 (env : Env) (pb : Val → Bool) (d : TDict) (k : String) (rest : List PKey) (ins : Bool)
     (a : Val) : TDict × Option E :=
   match rest with
   | [] => dictPrim env false pb d k (.plain a)
@@ -515,12 +582,34 @@ def pathWrite (env : Env) (pb : Val → Bool) (d : TDict) (k : String) (rest : L
       | .error e => (d, some e)
     | _, _ => (d, some .key)
 
-def pathBatch (env : Env) (pb : Val → Bool) (d : TDict) : List (String × List PKey × Bool × Val) → TDict × Option E
+def pathWrite (env : Env) (pb : Val → Bool) (d : TDict) (k : String) (rest : List PKey) (ins : Bool)
+    (a : Val) : TDict × Option E :=
+  match entryPre env d k rest with
+  | some e => (d, some e)
+  | none => pathWrite0 env pb d k rest ins a
+
+def pathLoop (env : Env) (pb : Val → Bool) (d : TDict) : List (String × List PKey × Bool × Val) → TDict × Option E
   | [] => (d, none)
   | (k, rest, ins, a) :: ws =>
     match pathWrite env pb d k rest ins a with
-    | (d', none) => pathBatch env pb d' ws
+    | (d', none) => pathLoop env pb d' ws
     | (d', some e) => (d', some e)
+
+/-- A batched rebind: refused as a whole, before anything is written, if any target is sealed
+(`_ensure_rebind_targets_writable`, base.py); otherwise entry by entry, a failure keeps the prefix. -/
+def pathBatch (env : Env) (pb : Val → Bool) (d : TDict) (ws : List (String × List PKey × Bool × Val)) : TDict × Option E :=
+  match ws.findSome? (fun w => entryPre env d w.1 w.2.1) with
+  | some e => (d, some e)
+  | none => pathLoop env pb d ws
+
+/-- One step of a dict / object history: a mutator call, or a `rebind` with key paths. -/
+inductive TOp where
+  | plain (op : DictOp)
+  | paths (ws : List (String × List PKey × Bool × Val))
+
+def tStep (env : Env) (p : Bool) (pb : Val → Bool) (d : TDict) : TOp → TDict × Option E
+  | .plain o => dictStep env p pb d o
+  | .paths ws => pathBatch env pb d ws
 
 /-- `pg.Dict(value, value_spec=Dict(fields), allow_partial=p)`. -/
 def constructDict (env : Env) (p : Bool) (fields : List Field) (kvs : List (String × Val)) : Except E TDict :=
